@@ -48,7 +48,21 @@ pub fn oracle(s: &ProgScene<X>, t: &Trace) -> Vec<Violation> {
     let mbn = s.spawn.mailbox.name();
     let op_at = |c: u8, i: u16| s.clients.get(c as usize).and_then(|cs| cs.ops.get(i as usize));
     // first stop request issued, first accepted stop request returned
-    let first_stop_begin = an.ops.iter().filter(|o| op_at(o.c, o.i).is_some_and(is_stop_request)).map(|o| o.begin).min();
+    // a stop request is issued when the client operation that carries it begins - except for
+    // Context::stop, which is issued at the moment the handler calls it (the command message
+    // that asks for it is an ordinary message until then)
+    let mut issued: Vec<usize> = an
+        .ops
+        .iter()
+        .filter(|o| op_at(o.c, o.i).is_some_and(|op| is_stop_request(op) && !matches!(op, Op::Cmd(..))))
+        .map(|o| o.begin)
+        .collect();
+    for (idx, e) in t.log.iter().enumerate() {
+        if let Ev::Ctx { op: CtxOp::Stop, .. } = e.ev {
+            issued.push(idx);
+        }
+    }
+    let first_stop_begin = issued.iter().min().copied();
     let mut accepted: Vec<usize> = vec![];
     for o in &an.ops {
         match op_at(o.c, o.i) {
@@ -262,7 +276,7 @@ fn cases(tier: Tier) -> Vec<Case> {
         for &sv in &stops {
             for a in seqs(&subs_alpha, 1) {
                 for b in seqs(&subs_alpha, 1) {
-                    v.push(make_case(&[a.clone(), b], &[sv], Awaiter::AwaitEarly, mb, false, if tier == Tier::Quick { Some(4) } else { None }));
+                    v.push(make_case(&[a.clone(), b], &[sv], Awaiter::AwaitEarly, mb, false, None));
                 }
             }
         }
